@@ -284,3 +284,59 @@ pub fn spec_classes(s: &Spec) -> Vec<String> {
 		format!("gecko={} ends={} meta={}", s.gecko_blocks.min(2), s.ends, s.metadata.is_some()),
 	]
 }
+
+// ------------------------------------------------------------ incremental API
+
+pub use peppi::io::slippi::de::ParseState;
+
+#[derive(Clone, Copy, Debug, PartialEq, Eq)]
+pub enum Step {
+	Start,
+	Event(u8),
+	Metadata,
+	Close,
+}
+
+/// Drive the incremental API the way `slippi::read` does (header, start, one
+/// event per call until the declared raw length is consumed or Game End is
+/// seen, then optional metadata and the closing brace), calling `on_step`
+/// after every call. `extra_after_end` = also consume a doubled Game End.
+pub fn incremental<R: std::io::Read>(r: &mut R, mut on_step: impl FnMut(&ParseState, Step, u32)) -> Result<ParseState, Fail> {
+	use peppi::io::slippi::de;
+
+	let raw_len = flat(guard(|| de::parse_header(&mut *r, None)))?;
+	let mut state = flat(guard(|| de::parse_start(&mut *r, None)))?;
+	on_step(&state, Step::Start, raw_len);
+	while raw_len == 0 || state.bytes_read() < raw_len as usize {
+		let code = flat(guard(|| de::parse_event(&mut *r, &mut state, None)))?;
+		on_step(&state, Step::Event(code), raw_len);
+		if code == 0x39 {
+			break;
+		}
+	}
+	// doubled Game End / junk inside raw: skip like the one-shot reader does
+	if state.bytes_read() < raw_len as usize {
+		let mut buf = vec![0u8; raw_len as usize - state.bytes_read()];
+		r.read_exact(&mut buf).map_err(|e| Fail::Err(e.to_string()))?;
+	}
+	let mut b = [0u8; 1];
+	r.read_exact(&mut b).map_err(|e| Fail::Err(e.to_string()))?;
+	match b[0] {
+		0x55 => {
+			flat(guard(|| de::parse_metadata(&mut *r, &mut state, None)))?;
+			on_step(&state, Step::Metadata, raw_len);
+			r.read_exact(&mut b).map_err(|e| Fail::Err(e.to_string()))?;
+			if b[0] != 0x7d {
+				return Err(Fail::Err("expected closing brace".into()));
+			}
+		}
+		0x7d => {}
+		x => return Err(Fail::Err(format!("expected U or }} got {:#x}", x))),
+	}
+	on_step(&state, Step::Close, raw_len);
+	Ok(state)
+}
+
+pub fn ports_of(start: &peppi::game::Start) -> Vec<peppi::frame::PortOccupancy> {
+	peppi::game::port_occupancy(start)
+}
